@@ -163,6 +163,7 @@ let () =
           | _ ->
             (* generic path: (model observation, spec observation, stored something, next state) *)
             let impl_spec = ref impl in
+            let resync = ref false in
             let (om, os, stored, st') = (match !st with
               | SVec (v, sp) ->
                 let o = parse_vop name args in
@@ -176,13 +177,18 @@ let () =
                 let (m', ob) = str_step m o in
                 (* the oracle of the property is the reference without the deviations (dev = false) *)
                 let (sp', sob) = sstr_step false sp o in
+                (* known deviation string:retain-inverted: the difference shows in the content observed
+                   right after retain; it is reported, then the reference continues from the
+                   implementation's content so that later calls of the case are still checked *)
+                let sp' = if name = "bytes" && !prev_name = "retain" && show_o sob <> impl && show_o ob = impl
+                          then (resync := true; sstr_of_str m') else sp' in
                 (show_o ob, show_o sob,
                  (match o with SPush _ | SPushBytes _ | SInsert _ | SInsertBytes _ -> ob = OUnit | _ -> false),
                  SStr (m', sp'))
               | SMap (m, sp) ->
                 let o = parse_mop name args in
                 let ((m', ob), d) = sm_step m o in
-                let ((sp', sob), sd) = smap_step false sp o in
+                let ((sp', sob), sd) = smap_step sp o in
                 (* the reference does not fix the order in which container drop releases the values *)
                 let sd = if o = MDrop then (impl_spec := sort_drops impl; sortN sd) else sd in
                 (show_od impl (ob, d), show_od impl (sob, sd),
@@ -191,7 +197,7 @@ let () =
               | SFlat (m, sp) ->
                 let o = parse_fop name args in
                 let ((m', ob), d) = fm_step m o in
-                let ((sp', sob), sd) = fmap_step false sp o in
+                let ((sp', sob), sd) = fmap_step sp o in
                 (* order of list_keys and of the drops at container drop: not fixed by the reference *)
                 let (sob, sd) = (match o, sob with
                   | FDrop, _ -> impl_spec := sort_drops impl; (sob, sortN sd)
@@ -208,7 +214,7 @@ let () =
             (* after the first difference from the reference its state is no longer meaningful for
                this case: report that first difference only *)
             if os <> !impl_spec && not !spec_dead then begin
-              incr mm_spec; spec_dead := true;
+              incr mm_spec; if not !resync then spec_dead := true;
               report "spec" k impl (Printf.sprintf "MISMATCH case=%d op=%d kind=spec prev=%s line=[%s] spec=%s impl=%s\n" !case_no !op_no !prev_name line os impl) end;
             prev_name := name;
             if stored then cur_nontrivial := true;
